@@ -663,7 +663,7 @@ class C17(World):
             ops.append({"op": "preread", "name": name, "rs": rng.randrange(2**31)})
         if rng.random() < 0.4:
             ops.append(self._gen_edit(rng, kind, cfg, "pre"))
-        ops.append({"op": "copy", "route": cfg["route"], "rs": rng.randrange(2**31), "quiet": rng.random() < 0.5})
+        ops.append({"op": "copy", "route": cfg["route"], "rs": rng.randrange(2**31), "quiet": rng.random() < 0.5, "twice": rng.random() < 0.15})
         for _ in range(cfg["n_edits"]):
             ops.append(self._gen_edit(rng, kind, cfg, rng.choice(["original", "copy"])))
             if rng.random() < 0.3:
@@ -751,6 +751,8 @@ class C17(World):
                     observe(kind, twin_c)
                     try:
                         cp = do_copy(kind, orig, route)
+                        if op.get("twice"):
+                            cp = do_copy(kind, cp, route)  # a copy of a copy is a copy
                     except (KeyboardInterrupt, SystemExit, MemoryError):
                         raise
                     except BaseException as e:
